@@ -181,6 +181,16 @@ func runC09P(r *simkit.Run, c Cfg) {
 	cids := make([]cid.Cid, ncids)
 	for i := range cids {
 		cids[i] = RawCid(fmt.Sprintf("c%d", i))
+		if i%3 == 1 {
+			// a different CID with the digest of the one before: another
+			// codec, or the version-0 form
+			prev := cids[i-1]
+			if i%2 == 0 {
+				cids[i] = cid.NewCidV1(cid.DagJSON, prev.Hash())
+			} else {
+				cids[i] = cid.NewCidV0(prev.Hash())
+			}
+		}
 		if ownTopic && tp.Chance(1, 3, "pubFails") {
 			pubFails[cids[i].String()] = true
 		}
